@@ -52,7 +52,13 @@ def plain_calls():
         ('cli_display', 'hpcomware', lambda x, y: ('cli_display', dict(cmds=[x, y])), 0),
         ('show_cli', 'alu', lambda x, y: ('show_cli', dict(command=x)), 1),
         ('rpc-element', 'default', lambda x, y: ('rpc', dict(rpc_command=cfg(x))), 2),
+        ('edit_config-identityref', 'default', lambda x, y: ('edit_config', dict(target='running', config='<config xmlns="%s"><i xmlns="urn:i"><type xmlns:ianaift="urn:iana-if-type">ianaift:ethernetCsmacd</type><d>%s</d></i></config>' % (BASE, __import__('xml.sax.saxutils', fromlist=['escape']).escape(x, {'\r': '&#13;'})))), 1),
+        ('get-subtree-qname', 'nexus', lambda x, y: ('get', dict(filter=('subtree', '<f xmlns="urn:f" xmlns:if="urn:iface"><t>if:%s</t></f>' % 'eth'))), 0),
     ]
+NS_BINDINGS = {'get-xpath-ns': lambda x, y: [('p', y or 'urn:p')], 'edit_config-identityref': lambda x, y: [('ianaift', 'urn:iana-if-type')],
+               'get-subtree-qname': lambda x, y: [('if', 'urn:iface')]}
+if True:
+    pass
 
 
 class C07(Check):
@@ -126,6 +132,13 @@ class C07(Check):
             root = ET.fromstring(s.sent[0].encode('utf-8'))
         except Exception as e:
             return {'sent': len(s.sent), 'parse_error': repr(e)[:200]}
+        import io as _io
+        decls = []
+        try:
+            for ev, nsdecl in ET.iterparse(_io.BytesIO(s.sent[0].encode('utf-8')), events=('start-ns',)):
+                decls.append(list(nsdecl))
+        except Exception:
+            pass
         texts, attrs = [], []
         for el in root.iter():
             if el.text:
@@ -133,7 +146,7 @@ class C07(Check):
             for a, v in el.attrib.items():
                 if a != 'message-id':
                     attrs.append(v)
-        return {'sent': len(s.sent), 'texts': texts, 'attrs': attrs, 'root': root.tag, 'nops': len(list(root))}
+        return {'sent': len(s.sent), 'texts': texts, 'attrs': attrs, 'root': root.tag, 'nops': len(list(root)), 'nsdecls': decls}
 
     def model_lines(self, case):
         if case['kind'] == 'esc':
@@ -179,6 +192,10 @@ class C07(Check):
             return ('C07:shape:' + name, 'not exactly one <rpc> with one operation element')
         want = plain_calls()[case['call']][3]
         x, y = case['x'], case['y']
+        if name in NS_BINDINGS:
+            for pfx, uri in NS_BINDINGS[name](x, y):
+                if [pfx, uri] not in io.get('nsdecls', []):
+                    return ('C07:namespace-binding-lost:' + name, 'the prefix %r -> %r used in a value of the caller\'s fragment / filter is not declared in the request' % (pfx, uri))
         if name in ('load_configuration-set', 'cli_display'):
             if (x + '\n' + y) not in io['texts']:
                 return ('C07:caller-string-altered:' + name, 'joined set commands not found unaltered')
@@ -196,6 +213,8 @@ class C07(Check):
                 continue
             if x == y:
                 continue
+            if name == 'commit-sros' and sname == 'x' and not sval.strip():
+                continue        # SR OS commit documents the comment as descriptive text and omits a blank one
             if n != expect:
                 return ('C07:caller-string-altered:' + name, 'string %r found %d time(s) unaltered in the parsed request, expected %d' % (sval[:50], n, expect))
         return None
